@@ -5,7 +5,7 @@ import itertools, random, json
 from ..harness import coq, impl, scn, gen, obs as O, pyeval
 
 pid = 'C07'
-gen_modules = ['tr_state', 'tr_validators', 'tr_has_patcher', 'tr_contracts', 'tr_decorators', 'tr_pin_contracts', 'tr_pin_invariant', 'tr_rest_validators', 'tr_rest_patcher', 'tr_rest_state', 'tr_rest_contractsconst']
+gen_modules = ['tr_state', 'tr_validators', 'tr_has_patcher', 'tr_contracts', 'tr_decorators', 'tr_pin_contracts', 'tr_pin_invariant', 'tr_rest_validators', 'tr_rest_patcher', 'tr_rest_state', 'tr_rest_contractsconst', 'tr_dispatch', 'tr_rest_dispatch']
 model_targets = ['Sem/ScnSwitch.v', 'Sem/Scenario.v']
 hand_modelled = []
 OPS = ['enable', 'disable', 'reset', 'perm']
@@ -266,6 +266,20 @@ def check_decorated_while_disabled():
     deal.disable()
     a.__dict__["x"] = 1
     out["disabled_again_inert"] = raised(setattr, a, "x", -1) is None and raised(f, -1) is None
+    # dispatch turns contracts on for the duration of a call: whatever the outcome (return, body exception, no match), the last
+    # effective switch (disabled) must be in force afterwards
+    @deal.dispatch
+    def d(x): raise NotImplementedError
+    @d.register
+    @deal.pre(lambda x: x == 1)
+    def _(x): return "one"
+    @d.register
+    @deal.pre(lambda x: x == 2)
+    def _(x): raise ValueError("body")
+    from deal._state import state
+    for arg in (1, 2, 3):
+        raised(d, arg)
+        out[f"disabled_after_dispatch_{arg}"] = (state.debug is False) and raised(f, -1) is None
     deal.enable()
     return out
 '''
